@@ -35,18 +35,6 @@ theorem first_get (Ts : List (Tet ℝ)) (i : Nat) (hi : i < 3) :
   · simpa using Spec.first_y Ts
   · simpa using Spec.first_z Ts
 
-theorem list_sum_map_mul (c : ℝ) {β : Type} (f : β → ℝ) (l : List β) :
-    (l.map fun x => c * f x).sum = c * (l.map f).sum := by
-  induction l with
-  | nil => simp
-  | cons a l ih => simp [ih, mul_add]
-
-theorem list_sum_map_lin (k : ℝ) {β : Type} (f g : β → ℝ) (l : List β) :
-    (l.map fun x => k * (f x + g x)).sum = k * ((l.map f).sum + (l.map g).sum) := by
-  induction l with
-  | nil => simp
-  | cons a l ih => simp only [List.map_cons, List.sum_cons, ih]; ring
-
 /-- the surface sum of the curl-theorem centroid is 48 × the exact first moment -/
 theorem centroid_sum_exact {S : List (Tri ℝ)} {Ts : List (Tet ℝ)}
     (h : ChainEq S (Ts.flatMap Tet.bdry)) (i : Nat) (hi : i < 3) :
